@@ -20,7 +20,7 @@ EXPLANATION = (
     "arrays reset together): every Vec field a storage's insert pushes onto is cleared by its clean(). R8 (accessor siblings): within one storage impl, "
     "get, get_mut and shared_get_mut compute the position they read in the component container by the same chain of operations from the index "
     "parameter (sibling agreement on the abstracted origin of the container index; a 'fast path' that indexes directly in one accessor only is a "
-    "disagreement). W10: outside the crate the raw storage is only "
+    "disagreement). R9 (membership observers): the handle-less &self observers of Storage (count, is_empty, mask) compute their answer from the storage's mask and from no other state of the storage (a cached count kept beside the mask is second state that every path, including unwind paths, would have to keep in step). W10: outside the crate the raw storage is only "
     "reachable mutably through an unsafe fn and the mask / inner fields of MaskedStorage are private, so the discipline cannot be bypassed by safe user code."
 )
 NOT_DECIDED = ("equality with a map for all operation sequences: return VALUES, dense swap_remove index fix-up, default-filled gaps, slice views "
